@@ -154,6 +154,37 @@ impl Plugin for GidNumber {
     }
 }
 
+#[cfg(feature = "verif-hooks")]
+pub struct VerifGidKernel {
+    e: Entry<EntryInvalid, EntryNew>,
+}
+
+#[cfg(feature = "verif-hooks")]
+impl VerifGidKernel {
+    /// A posix account entry that is re-used between calls.
+    pub fn new() -> Result<Self, OperationError> {
+        let schema = crate::schema::Schema::new()?;
+        let mut e: Entry<EntryInit, EntryNew> = Entry::new();
+        e.add_ava(Attribute::Class, EntryClass::Account.to_value());
+        e.add_ava(Attribute::Class, EntryClass::PosixAccount.to_value());
+        let cid = Cid::new_lamport(Uuid::nil(), Duration::ZERO, &Duration::ZERO);
+        let e = e.assign_cid(cid, &schema.read());
+        Ok(VerifGidKernel { e })
+    }
+
+    /// Run the plugin kernel for an entry with this uuid and optionally a caller
+    /// supplied gid. Returns the gid the entry ends up with.
+    pub fn run(&mut self, uuid: Uuid, supplied: Option<u32>) -> Result<Option<u32>, OperationError> {
+        self.e.set_ava(&Attribute::Uuid, once(Value::Uuid(uuid)));
+        match supplied {
+            Some(g) => self.e.set_ava(&Attribute::GidNumber, once(Value::new_uint32(g))),
+            None => self.e.purge_ava(Attribute::GidNumber),
+        }
+        apply_gidnumber(&mut self.e)?;
+        Ok(self.e.get_ava_single_uint32(Attribute::GidNumber))
+    }
+}
+
 #[cfg(test)]
 mod tests {
     use super::{
